@@ -264,6 +264,10 @@ def build(tier, repo):
                   "every piece of a max / sum-of-max term becomes a constraint of the LP")
     chk.note_analysed("piece_loops", sr5.loop_bound_domain_rule(r8, w))
     r8.require(4)
+    from .. import w7_rules as w7
+    r9 = chk.rule("C12-R9", "a multiplier is averaged over the operand the enclosing test found long, never over the one it fixed at length 1",
+                  "multipliers returned for the original constraints are those of the equivalent LP")
+    chk.note_analysed("length_divisions", w7.unit_length_scaling_rule(r9, w.mods["modeling"].tree, "modeling.py", None))
     return chk
 
 
